@@ -121,7 +121,11 @@ mutant "hash.reset: counting loop that starts at 1"          proof hash.go 's/(f
 mutant "bucketHash.reset: clear(buckets) twice, indexes kept" proof bucket_hash.go 's/\tfor i := range bh\.indexes \{\n\t\tbh\.indexes\[i\] = 0\n\t\}\n/\tclear(bh.buckets)\n/'
 mutant "hash.shiftOffsets: element pointer to entry 0      " proof hash.go 's/for i, e := range h\.table \{\n\t\tif e\.pos < delta \{\n\t\t\th\.table\[i\] = hashEntry\{\}/for i, e := range h.table {\n\t\tif e.pos < delta {\n\t\t\tp := &h.table[0]\n\t\t\t*p = hashEntry{}/'
 # --- constructs the value model of slices cannot express: the extractor must refuse
-mutant "alias: reset through a second slice variable"        extract hash.go 's/(func \(h \*hash\) reset\(\) \{\n)\tfor i := range h\.table \{\n\t\th\.table\[i\] = hashEntry\{\}/${1}\tt := h.table\n\tfor i := range t {\n\t\tt[i] = hashEntry{}/'
+# (second robustness round, notes/robust2.md: `t := h.table` with a stable header is a second NAME of the field and is
+#  substituted by the normalisation pass — behaviour-preserving and now translated; a RE-SLICED copy stays an alias)
+mutant "harmless: reset through a second slice variable"     harmless hash.go 's/(func \(h \*hash\) reset\(\) \{\n)\tfor i := range h\.table \{\n\t\th\.table\[i\] = hashEntry\{\}/${1}\tt := h.table\n\tfor i := range t {\n\t\tt[i] = hashEntry{}/'
+mutant "alias: reset through a re-sliced second variable"    extract hash.go 's/(func \(h \*hash\) reset\(\) \{\n)\tfor i := range h\.table \{\n\t\th\.table\[i\] = hashEntry\{\}/${1}\tt := h.table[0:]\n\tfor i := range t {\n\t\tt[i] = hashEntry{}/'
+mutant "second slice variable, one entry not cleared"        proof hash.go 's/(func \(h \*hash\) reset\(\) \{\n)\tfor i := range h\.table \{\n\t\th\.table\[i\] = hashEntry\{\}/${1}\tt := h.table\n\tfor i := range t {\n\t\tt[i] = hashEntry{pos: 1}/'
 mutant "range loop re-slices the table it iterates over"     extract hash.go 's/(func \(h \*hash\) reset\(\) \{\n\tfor i := range h\.table \{\n)/${1}\t\th.table = h.table[:len(h.table)-i]\n/'
 mutant "value receiver writes elements"                      extract hash.go 's/func \(h \*hash\) reset\(\) \{/func (h hash) reset() {/'
 
